@@ -5,9 +5,9 @@ id=$1; prop=$2; base=$3
 cd /repo || exit 9
 if ! git diff --quiet; then echo "repo dirty"; exit 9; fi
 git checkout -q $base -- flodym
-(cd /verif && ./check $prop > /tmp/tsb_base.out 2>&1)
+(cd /verif && FVC_EVIDENCE_DIR=/tmp/seed_evidence ./check $prop > /tmp/tsb_base.out 2>&1)
 git apply /verif/seeded/$id/patch.diff || { echo "patch does not apply"; git checkout -q HEAD -- flodym; exit 8; }
-(cd /verif && ./check $prop > /tmp/tsb_patch.out 2>&1)
+(cd /verif && FVC_EVIDENCE_DIR=/tmp/seed_evidence ./check $prop > /tmp/tsb_patch.out 2>&1)
 git reset -q HEAD -- flodym; git checkout -q HEAD -- flodym
 grep '^VIOLATION' /tmp/tsb_base.out | sed 's/ replay=.*replays\// /' | sort > /tmp/tsb_base.v
 grep '^VIOLATION' /tmp/tsb_patch.out | sed 's/ replay=.*replays\// /' | sort > /tmp/tsb_patch.v
